@@ -10,6 +10,7 @@ PCall(cols, rows, single) == [cols |-> cols, rows |-> rows, single |-> single]
 T(s) == TextV(s)
 Vals1 == {Null, IntV(0), IntV(-12), MaxV(0), MinV(0), BoolV(TRUE), T(<<>>), T(<<120, 121>>), T(<<233>>),
           T(<<39>>), T(<<34, 59>>), T(<<10>>), T(<<9, 92>>), T(<<128512>>), RealV(3, 2), RealV(1, 1), RealV(-1, 4), NaN, PInf, NZero,
+          IvV(0), IvV(3723004), IvV(86400000), IvV(180930000), TsV(<<2021, 3, 4, 5, 6, 7, 89000>>), TsV(<<1999, 12, 31, 23, 59, 59, 999000>>),
           ArrV("int", <<IntV(1), Null, IntV(2)>>), ArrV("text", <<T(<<97>>), T(<<34>>)>>)}
 ValsSmall == {Null, IntV(7), T(<<120>>)}
 
